@@ -473,6 +473,13 @@ fn replay_main(path: &str) -> i32 {
     let mut out = Out::new(id);
     out.set_known(load_known_findings(), Box::new(move |c, pa, v| p2.classify(c, pa, v)));
     let case = doc.get("case").cloned().unwrap_or(Value::Null);
+    if case.get("cross_process").and_then(|c| c.as_bool()).unwrap_or(false) {
+        // two worker processes answered the same question differently: one process cannot show that, so the replay is
+        // the whole check again (same tier and seed), which asks the question in every worker process
+        let _ = std::fs::remove_dir_all(&base);
+        println!("replay of {path}: a cross-process witness; running the whole {id} check again at the recorded tier and seed");
+        return orchestrate(p.as_ref(), tier, env.seed);
+    }
     let r = guard(|| p.replay(&env, &case, &mut out));
     let _ = std::fs::remove_dir_all(&base);
     if let Err(pn) = r {
